@@ -83,14 +83,24 @@ class FSplit(CExec):
 
     # ---- calls
     def count_of(self, node, st):
-        size = strip(node)
-        if size.get("kind") == "BinaryOperator" and size.get("opcode") == "*":
-            a, b = [strip(x) for x in size["inner"]]
-            if a.get("kind") == "UnaryExprOrTypeTraitExpr":
-                return self.rvalue(size["inner"][1], st)
-            if b.get("kind") == "UnaryExprOrTypeTraitExpr":
-                return self.rvalue(size["inner"][0], st)
-        raise Unsupported("size is not sizeof(T) * count")
+        """Element count of a byte size written as a product with exactly one sizeof(T) factor."""
+        factors, todo = [], [node]
+        while todo:
+            x = strip(todo.pop())
+            if x.get("kind") == "BinaryOperator" and x.get("opcode") == "*":
+                todo.extend(x["inner"])
+            else:
+                factors.append(x)
+        sz = [f for f in factors if f.get("kind") == "UnaryExprOrTypeTraitExpr"]
+        if len(sz) != 1:
+            raise Unsupported("size is not sizeof(T) * count")
+        cnt = None
+        for f in factors:
+            if f is sz[0]:
+                continue
+            v = self.rvalue(f, st)
+            cnt = v if cnt is None else cnt * v
+        return cnt if cnt is not None else z3.IntVal(1)
 
     def on_call(self, name, args, n, st):
         if name in ("BTree_Malloc", "malloc"):
@@ -415,16 +425,179 @@ class FSplitRoot(CExec):
 
 
 
+class FGrow(CExec):
+    """`BTree_grow(self, index, noval)`: split child `index` of an interior node and insert the new sibling right after
+    it (or give an empty tree its first, empty leaf).  Loop-free; the vector may have to be doubled first.
+      requires   0 <= index < len (or len == 0 and index == 0); len <= size; the child is neither self nor the new sibling
+      returns 0, len0 > 0  =>  len' == len0 + 1 <= size';  items 0..index untouched (child AND separator);
+                     item index+1 is (first key of the new sibling e as the split left it, e);
+                     items index+1..len0-1 moved up by one;  firstbucket untouched
+                     (stated at the return, and at the call of BTree_split_root when the node is then too big)
+      returns 0, len0 == 0 =>  len' == 1, item 0 holds a new leaf, which is also the firstbucket
+      returns -1           =>  len, firstbucket and the first len0 items are as they were (the vector may have moved)
+    (`F-SPLIT:BTree_grow:<ok|empty|fail>:<clause>`.)  The callees BTree_split / bucket_split change the child and the new
+    sibling only (their own contracts: above); `_max_internal_size` and the activation of the child do not touch self."""
+    family = "F-SPLIT"
+
+    @classmethod
+    def applies(cls, tu, fn):
+        return fn == "BTree_grow"
+
+    count_of = FSplit.count_of
+
+    def on_entry(self, st):
+        ps = [p for p in self.fn.get("inner", []) if p["kind"] == "ParmVarDecl"]
+        if [p.get("name") for p in ps][:2] != ["self", "index"]:
+            raise Unsupported("BTree_grow's parameters are not (self, index, ...)")
+        self.S, self.IDX = st.vars[ps[0]["id"]], st.vars[ps[1]["id"]]
+        S = self.S
+        self.old = {f: z3.Select(H0(f), S) for f in ("data", "len", "size", "firstbucket")}
+        o = self.old
+        self.assumptions += [S != 0, o["len"] >= 0, o["len"] <= o["size"], z3.Implies(o["size"] > 0, o["data"] > 0),
+                             z3.Or(z3.And(o["len"] == 0, self.IDX == 0), z3.And(0 <= self.IDX, self.IDX < o["len"]))]
+        self.blocks = [(o["data"], o["size"])]
+        self.new_nodes = []
+        self.e = None
+        self.root_split = []
+        for f in ("key", "child", "data", "len", "size", "firstbucket"):
+            st.heap.setdefault(f, H0(f))
+        self.covers = [("F-SPLIT:BTree_grow:cover:precondition", list(self.assumptions) + [o["len"] > 2])]
+
+    def shift(self, st, dst, src, cnt, guard=None):
+        a = z3.Int("a!gm")
+        for field in ("key", "child"):
+            old = st.heap.get(field, H0(field))
+            inside = z3.And(dst <= a, a < dst + cnt)
+            if guard is not None:
+                inside = z3.And(guard, inside)
+            st.heap[field] = z3.Lambda([a], z3.If(inside, z3.Select(old, src + (a - dst)), z3.Select(old, a)))
+
+    def fresh_block(self, cnt, old=None):
+        r = fresh("blk")
+        ok = z3.And(r > 0, *[z3.Or(b == 0, r + cnt <= b, b + c <= r) for b, c in self.blocks if old is None or b is not old[0]])
+        if old is not None:
+            p, oc = old
+            ok = z3.And(ok, z3.Or(r == p, r + cnt <= p, p + oc <= r))
+        self.assumptions.append(z3.Or(r == 0, ok))
+        return r
+
+    def on_call(self, name, args, n, st):
+        S = self.S
+        if name in ("BTree_Realloc", "realloc"):
+            p = args[0]
+            cnt = self.count_of(n["inner"][2], st)
+            oc = self.old["size"]
+            r = self.fresh_block(cnt, old=(self.old["data"], oc))
+            self.oblige(st, "F-SPLIT:BTree_grow:realloc:grows", z3.And(p == self.old["data"], cnt >= oc))
+            self.shift(st, r, p, oc, guard=(r != 0))
+            self.blocks = [(z3.If(r != 0, r, self.old["data"]), z3.If(r != 0, cnt, oc))]
+            return r
+        if name in ("BTree_Malloc", "malloc"):
+            cnt = self.count_of(n["inner"][1], st)
+            r = self.fresh_block(cnt)
+            self.blocks.append((r, cnt))
+            return r
+        if name in ("PyObject_CallObject", "BTree_newBucket"):
+            r = fresh("newnode")
+            c0 = z3.Select(st.heap.get("child", H0("child")), self.hread(st, "data", S) + self.IDX)
+            self.assumptions.append(z3.Or(r == 0, z3.And(r > 0, r != S, r != c0)))
+            self.new_nodes.append(r)
+            if name == "PyObject_CallObject":
+                self.e = r
+            else:
+                self.bucket = r
+            return r
+        if name in ("->setstate", "BTree_split", "bucket_split"):
+            # these work on the child (and the new sibling): any field of THOSE objects may change, nothing of self
+            objs = [args[0]] + ([args[2]] if name != "->setstate" else [])
+            for f in list(st.heap):
+                if f in ("key", "child") or f.startswith("*"):
+                    continue
+                for o in objs:
+                    st.heap[f] = z3.Store(st.heap[f], o, fresh("upd_" + f.replace(".", "_")))
+            # the callee's own vectors (of the child / the sibling) are other blocks: self's items are not written
+            self.assumptions.append(z3.And(*[o != S for o in objs]))
+            return fresh("ret_" + name.strip("->"))
+        if name == "BTree_split_root":
+            self.check(st, "before-root-split")
+            self.root_split.append(st.guard)
+            self.havoc_heap(st, "call BTree_split_root")
+            return fresh("ret_split_root")
+        if name in ("_max_internal_size", "->accessed", "Py_INCREF", "_Py_INCREF", "Py_DECREF", "_Py_DECREF", "Py_XDECREF", "Py_TYPE",
+                    "_Py_IsImmortal", "_Py_Dealloc", "_Py_NewRef", "PyErr_Occurred"):
+            return fresh("ret_" + name.strip("->"))
+        if name == "memmove":
+            cnt = self.count_of(n["inner"][3], st)
+            dst, src = args[0], args[1]
+            base, size = self.hread(st, "data", S), self.hread(st, "size", S)
+            self.oblige(st, "F-SPLIT:BTree_grow:memmove:source-in-bounds", z3.And(cnt >= 0, src >= base, src + cnt <= base + size))
+            self.oblige(st, "F-SPLIT:BTree_grow:memmove:destination-in-bounds", z3.And(dst >= base, dst + cnt <= base + size))
+            self.shift(st, dst, src, cnt)
+            return dst
+        raise Unsupported("BTree_grow calls %s" % name)
+
+    def item(self, st, j):
+        d = self.hread(st, "data", self.S)
+        return z3.Select(st.heap.get("child", H0("child")), d + j), z3.Select(st.heap.get("key", H0("key")), d + j)
+
+    def item0(self, j):
+        d = self.old["data"]
+        return z3.Select(H0("child"), d + j), z3.Select(H0("key"), d + j)
+
+    def check(self, st, where, v=None):
+        from .fleaf import norm
+        S, o, idx = self.S, self.old, self.IDX
+        j0 = fresh("j0")
+        lenp, sizep = self.hread(st, "len", S), self.hread(st, "size", S)
+        (c_new, k_new), (c_old, k_old) = self.item(st, j0), self.item0(j0)
+        (c_up, k_up), (c_dn, k_dn) = self.item(st, j0 + 1), self.item0(j0)
+        ok = z3.BoolVal(True) if v is None else v == 0
+        grew = z3.And(ok, o["len"] > 0)
+        G = {}
+        G["ok:length"] = z3.Implies(grew, z3.And(lenp == o["len"] + 1, lenp <= sizep))
+        G["ok:items_below"] = z3.Implies(z3.And(grew, 0 <= j0, j0 <= idx), z3.And(c_new == c_old, k_new == k_old))
+        G["ok:items_above"] = z3.Implies(z3.And(grew, idx < j0, j0 < o["len"]), z3.And(c_up == c_dn, k_up == k_dn))
+        if self.e is not None:
+            c_ins, k_ins = self.item(st, idx + 1)
+            G["ok:new_sibling_after_the_child"] = z3.Implies(grew, z3.And(self.e != 0, c_ins == self.e))
+        G["ok:first_bucket_kept"] = z3.Implies(grew, self.hread(st, "firstbucket", S) == o["firstbucket"])
+        for nm, g in G.items():
+            self.oblige(st, "F-SPLIT:BTree_grow:%s%s" % (nm, "" if v is not None else "@" + where), norm(g))
+
+    def on_return(self, st, v):
+        from .fleaf import norm
+        if v is None:
+            raise Unsupported("BTree_grow returns no value")
+        S, o = self.S, self.old
+        rs = z3.Or(*self.root_split) if self.root_split else z3.BoolVal(False)
+        # paths through BTree_split_root were checked at that call; the rest here
+        st2 = st.clone()
+        st2.guard = z3.simplify(z3.And(st.guard, z3.Not(rs)))
+        self.check(st2, "return", v)
+        j0 = fresh("j0")
+        (c_new, k_new), (c_old, k_old) = self.item(st, j0), self.item0(j0)
+        bucket = getattr(self, "bucket", None)
+        if bucket is not None:
+            c0, _ = self.item(st, z3.IntVal(0))
+            self.oblige(st2, "F-SPLIT:BTree_grow:empty:first_leaf", norm(z3.Implies(z3.And(v == 0, o["len"] == 0), z3.And(
+                self.hread(st, "len", S) == 1, bucket != 0, c0 == bucket, self.hread(st, "firstbucket", S) == bucket))))
+        self.oblige(st2, "F-SPLIT:BTree_grow:fail:unchanged", norm(z3.Implies(v == -1, z3.And(
+            self.hread(st, "len", S) == o["len"], self.hread(st, "firstbucket", S) == o["firstbucket"],
+            z3.Implies(z3.And(0 <= j0, j0 < o["len"]), z3.And(c_new == c_old, k_new == k_old))))))
+        self.oblige(st2, "F-SPLIT:BTree_grow:result-domain", z3.Or(v == 0, v == -1))
+
+
+
 class FSplitAny(CExec):
     """Dispatch: one analysis id, two functions."""
     family = "F-SPLIT"
 
     @classmethod
     def applies(cls, tu, fn):
-        return fn in ("bucket_split", "BTree_split", "BTree_split_root")
+        return fn in ("bucket_split", "BTree_split", "BTree_split_root", "BTree_grow")
 
     def __new__(cls, tu, fname):
-        return {"bucket_split": FSplit, "BTree_split": FSplitTree, "BTree_split_root": FSplitRoot}[fname](tu, fname)
+        return {"bucket_split": FSplit, "BTree_split": FSplitTree, "BTree_split_root": FSplitRoot, "BTree_grow": FGrow}[fname](tu, fname)
 
 
 ANALYSIS = {"F-SPLIT": FSplitAny}
